@@ -153,7 +153,7 @@ class Adapter(EnvAdapter):
                         num_agents=3, time_limit=7, reward=(2.5, -0.25))))
         out.append(dict(c("un4a2_t7_rwint", "uniform", 4, 2, 7, 18, 12, probe_cap=25), ctor=dict(generator="uniform", grid_size=4,
                         num_agents=2, time_limit=7, reward=(3, -1))))
-        out.append(dict(c("inj3a2", "all", 3, 2, 50, 0, 1, inject=("MC_Connector", "MC_Connector_quick.cfg"), post_terminal=0,
+        out.append(dict(c("inj3a2", "all", 3, 2, 50, 0, 1, inject=("MC_Connector", "MC_Connector_quick.cfg"), limit=4000, post_terminal=0,
                           policies=["random"], props=INJ_PROPS)))
         return out
 
